@@ -540,18 +540,38 @@ func runConn(g *modx.Rig, c c02Case, bar *barrier, ci int, cs connSpec, out *con
 			// wait (in-process signal, not the wire) until the hijacking modifier has returned
 			wd := time.NewTimer(modx.Watchdog)
 			defer wd.Stop()
-			select {
-			case <-act.Returned:
-			case <-col.Done():
-				// connection ended without the hijacking modifier having run/returned
+			tick := time.NewTicker(5 * time.Millisecond)
+			defer tick.Stop()
+		waitHijack:
+			for {
 				select {
 				case <-act.Returned:
-				default:
+					break waitHijack
+				case <-col.Done():
+					// connection ended without the hijacking modifier having run/returned
+					select {
+					case <-act.Returned:
+						break waitHijack
+					default:
+						return
+					}
+				case <-tick.C:
+					// the proxy answered something and is already waiting for the next
+					// request although the hijacking modifier never ran: the
+					// exactly-once clauses report that; nothing to wait for here
+					if col.Len() > 0 && cl.Srv.RdPending() > 0 && cl.Srv.RdBytes() == cl.SentRaw() {
+						select {
+						case <-act.Returned:
+							break waitHijack
+						default:
+							out.hij = nil
+							return
+						}
+					}
+				case <-wd.C:
+					out.harness = "watchdog: hijacking modifier did not return"
 					return
 				}
-			case <-wd.C:
-				out.harness = "watchdog: hijacking modifier did not return"
-				return
 			}
 			// a complete follow-up request: a proxy that keeps serving the socket will read it
 			ptyp := typ
